@@ -742,6 +742,24 @@ class ExprMixin:
                         upd[target.id] = unopt(e)
                     return [(k.s, m.sort[1])], is_some(e).s, upd
                 return "map", binder
+            v0 = self.ev(it, st, old)     # a library hook may supply the mapping behind x.items() / keys() / values()
+            if isinstance(v0, tuple) and not isinstance(v0, (T, TupV)) and v0 and v0[0] == "mapview" and isinstance(v0[2], T) and v0[2].sort[0] == "Map":
+                def binder(tag, m=v0[2], attr=v0[1]):
+                    k = T(m.sort[1], f"|q_k{tag}|")
+                    e = T(("Opt", m.sort[2]), f"(select {m.s} {k.s})")
+                    upd = {}
+                    if attr == "items":
+                        if isinstance(target, ast.Tuple):
+                            upd[target.elts[0].id] = k
+                            upd[target.elts[1].id] = unopt(e)
+                        else:
+                            upd[target.id] = TupV([k, unopt(e)])
+                    elif attr == "keys":
+                        upd[target.id] = k
+                    else:
+                        upd[target.id] = unopt(e)
+                    return [(k.s, m.sort[1])], is_some(e).s, upd
+                return "map", binder
             return None, None
         v = self.ev(it, st, old)
         if "iter" in self.m.hooks and hasattr(v, "sort"):
